@@ -160,6 +160,11 @@ def readable(h5, fpkeys):
     if ana is None:
         return True        # nothing was ever stored: there are no ratings that could become unreadable
     data = h5.root.attrs["members"].get("data")
+    if data is not None:
+        # load_hdf5 extracts EVERY stored raw data file and needs its file name
+        for name, d in data.attrs["members"].items():
+            if "path" not in d.attrs["attrs"].attrs["map"]:
+                return False
     for name, g in ana.attrs["members"].items():
         mem, at = g.attrs["members"], g.attrs["attrs"].attrs["map"]
         if "fit" not in mem:
@@ -171,6 +176,73 @@ def readable(h5, fpkeys):
         if data is None or h5._key(at["data hash"]) not in data.attrs["members"]:
             return False
     return True
+
+
+def _decodable(am, fp):
+    """attribute values exactly as save_hdf5 encodes them (so that the real load_hdf5 can decode them)"""
+    am["fit params_initial"] = ("__params_dump__", fp.d["params_initial"][1])
+    am["fit params_fitted"] = ("__params_dump__", fp.d["params_fitted"][1])
+    am["fit preprocessing"] = "compute_tip_position,correct_force_offset"
+    am["fit preprocessing_options"] = ("__json__", sx.SDict())
+    am["fit method_kws"] = ("__json__", sx.SDict())
+    am["fit range_x"] = "[-1e-06, 2.5e-06]"
+
+
+def _install_load_libs(I, h5, curves):
+    I.lib["h5py.File"] = lambda I, path, mode="r": h5.root
+    I.lib["tempfile.mkdtemp"] = lambda I, **k: sx.LibRef("some.path")
+    for tag in ("raw bytes", "raw", "other raw", "raw file bytes"):
+        I.lib[f"opaque:{tag}.tofile"] = lambda I, self, p: None
+    I.lib["shutil.rmtree"] = lambda I, *a, **k: None
+    I.lib["pathlib.Path"] = lambda I, p: sx.LibRef("some.path")
+
+    def group_ctor(I, path):
+        gcls = sx.ClassVal("IndentationGroup", [sx.OBJECT], {})
+
+        def get_enum(I, self, e):
+            ccls = sx.ClassVal("Indentation", [sx.OBJECT], {})
+            ccls.ns["__setitem__"] = sx.Builtin("setitem", lambda I, s, k, v: s.attrs["cols"].__setitem__(k, v))
+            c = sx.Obj(ccls)
+            c.attrs.update(cols={}, enum=e)
+            curves.append(c)
+            return c
+        gcls.ns["get_enum"] = sx.Builtin("get_enum", get_enum)
+        return sx.Obj(gcls)
+    I.lib["json.loads"] = lambda I, t: t[1] if isinstance(t, tuple) and t[0] == "__json__" else sx.Opaque("json")
+    mod = I.module(MOD)
+    mod.env.vars["IndentationGroup"] = sx.Builtin("IndentationGroup", group_ctor)
+
+    def ps_loads(I, self, txt):
+        if isinstance(txt, tuple) and txt[0] == "__params_dump__":
+            self.map = txt[1].map
+            return
+        raise sx.Unsupported("Parameters.loads of this value")
+    I.lmfit["Parameters"].ns["loads"] = sx.Builtin("loads", ps_loads)
+    return mod
+
+
+def loads_with(I, h5, wanted, at_least=0):
+    """COMPOSITION with the reader: the real load_hdf5 (both modes) is executed on the container as it is now;
+    returns None when it returns records for all ``wanted`` user-name objects, else a description"""
+    mod = _install_load_libs(I, h5, [])
+    saved_fail = h5.fail_at
+    h5.fail_at = None
+    try:
+        for meta_only in (True, False):
+            try:
+                recs = I.call(mod.env.vars["load_hdf5"], [SAtom(z3.Int("h5path"))], dict(meta_only=meta_only))
+            except sx.PyRaise as exc:
+                return f"load_hdf5(meta_only={meta_only}) raises {exc.exc.cls.name}"
+            names = [r.d["name"][1] for r in recs if isinstance(r, sx.SDict)]
+            for w in wanted:
+                if not any(nm is w for nm in names):
+                    return f"load_hdf5(meta_only={meta_only}) does not return a stored rating"
+            if len(recs) < at_least:
+                return f"load_hdf5(meta_only={meta_only}) returns {len(recs)} of {at_least} previously stored ratings"
+    finally:
+        h5.fail_at = saved_fail
+    return None
+
 
 
 def _mk_indent(I, st):
@@ -244,15 +316,19 @@ def unit_save(tier=None, seed=None):
             h5.root.attrs["members"].update(data=data, analysis=ana)
             raw_other = h5.group("/data/<other>")
             raw_other.attrs.update(kind="dataset", data=sx.Opaque("other raw"))
+            raw_other.attrs["attrs"].attrs["map"]["path"] = "some/other.jpk-force"
             data.attrs["members"]["<other>"] = raw_other
             ana.attrs["members"]["OTHER"] = h5.complete_entry("/analysis/OTHER/", fpkeys, "other")
             ana.attrs["members"]["OTHER"].attrs["attrs"].attrs["map"]["data hash"] = "<other>"
+            _decodable(ana.attrs["members"]["OTHER"].attrs["attrs"].attrs["map"], st["fp"])
             if has_raw:
                 raw = h5.group("/data/<dhash>")
                 raw.attrs.update(kind="dataset", data=sx.Opaque("raw"))
+                raw.attrs["attrs"].attrs["map"]["path"] = "some/file.jpk-force"
                 data.attrs["members"]["<dhash>"] = raw
             if exists:
                 ana.attrs["members"]["IDD"] = h5.complete_entry("/analysis/IDD/", fpkeys, "old")
+                _decodable(ana.attrs["members"]["IDD"].attrs["attrs"].attrs["map"], st["fp"])
         _install_io_libs(I, st, h5)
         mod = I.module(MOD)
         st.update(h5=h5, exists=exists, has_file=has_file, has_raw=has_raw, fpkeys=fpkeys, snap=h5.snapshot(),
@@ -283,7 +359,14 @@ def unit_save(tier=None, seed=None):
                          case=case)
         if failed:
             # ---- crash invariant
-            S.ensure("failed_save_keeps_container_readable", readable(h5, fpkeys), case=case,
+            # decided by running the REAL reader on the container the interrupted save leaves behind
+            wanted = []
+            if st["has_file"]:
+                wanted.append(snap["members"]["analysis"]["members"]["OTHER"]["attrs"]["user name"])
+            # (this curve's own entry may carry partly updated user fields, but it must still be returned)
+            why = loads_with(I, h5, wanted, at_least=2 if exists else 1) if st["has_file"] else None
+            case["reader"] = why or "load_hdf5 returns every previously stored rating"
+            S.ensure("failed_save_keeps_container_readable", why is None, case=case,
                      witness="after_fit_dataset" if "IDD" in ana_now and "fit" in ana_now["IDD"]["members"] else "")
             if exists:
                 old = snap["members"]["analysis"]["members"]["IDD"]
@@ -322,12 +405,13 @@ def unit_save(tier=None, seed=None):
                      z3.Implies(z3.And(i >= 0, i < a.len_term()),
                                 z3.And(na == nb, z3.Implies(z3.Not(na), z3.If(d >= 0, d, -d) <= z3.RealVal("1e-4") * absb))),
                      witness="absolute_tolerance")
-            S.ensure("compares_the_fit_columns", a is st["cols"]["fit"], case=case)
+            S.ensure("compares_the_fit_columns", a is st["cols"]["fit"] or b is st["cols"]["fit"], case=case)
         else:
-            S.ensure("new_entry_has_exactly_the_six_datasets", sorted(mem) == sorted(DATASETS)
-                     and all(mem[d]["data"] is st["cols"][d] for d in DATASETS), case=case)
-            want_attrs = {"data enum", "data hash"} | {"fit " + k for k in fpkeys} | set(USER + VERS)
-            S.ensure("new_entry_has_one_attribute_per_fit_property", set(at) == want_attrs, case=case)
+            # (what the reader needs; further datasets / attributes would not hurt the round trip)
+            S.ensure("new_entry_has_the_six_datasets", all(d in mem and mem[d]["data"] is st["cols"][d] for d in DATASETS),
+                     case=case)
+            want_attrs = {"data enum", "data hash"} | {"fit " + k for k in fpkeys} | set(USER)
+            S.ensure("new_entry_has_one_attribute_per_fit_property", want_attrs <= set(at), case=case)
             S.ensure("entry_points_at_its_raw_data", "<dhash>" in now["members"]["data"]["members"]
                      and h5._key(at.get("data hash")) == "<dhash>" and at.get("data enum") is st["indent"].attrs["enum"], case=case)
             S.ensure("container_readable_after_save", readable(h5, fpkeys), case=case)
@@ -624,11 +708,13 @@ def replay_save(ob):
             finally:
                 h5py.Group.create_dataset, h5py.AttributeManager.__setitem__ = real_cd, real_set
             try:
-                recs = rio.load(p, meta_only=True)
-                names = [r["name"] for r in recs]
-                if "first" not in names:
-                    return {"confirmed": True, "input": {"failure at write": k + 1}, "observed": f"stored rating lost: {names}",
-                            "required": "previously stored rating still readable"}
+                for meta_only in (True, False):
+                    recs = rio.load(p, meta_only=meta_only)
+                    names = [r["name"] for r in recs]
+                    if "first" not in names:
+                        return {"confirmed": True, "input": {"failure at write": k + 1, "meta_only": meta_only},
+                                "observed": f"stored rating lost: {names}",
+                                "required": "previously stored rating still readable"}
             except Exception as exc:
                 return {"confirmed": True, "input": {"failure at write": k + 1}, "observed": repr(exc)[:160],
                         "required": "previously stored rating still readable"}
